@@ -275,6 +275,7 @@ func cmdDump(args []string) {
 		os.Exit(2)
 	}
 	re := regexp.MustCompile(*funcF)
+	g.canary = true
 	for _, fn := range g.allFuncs {
 		key := g.fnKey(fn)
 		if !re.MatchString(key) {
